@@ -188,6 +188,11 @@ func TestC16(t *testing.T) {
 		default:
 			vctx.HealPath = "archive," + zipPath
 		}
+		if (many || manyBlocks) && rapid.Bool().Draw(rt, "starve") {
+			// one party only runs when nobody else can: queues fill up to their capacity
+			spec.Policy = 3
+			spec.Starve = rapid.SampledFrom([]string{"pwr.ArchiveHealer.heal", "pwr.ArchiveHealer.Do", "pwr.ValidatorContext.validate", "pwr.ValidatorContext.Validate", "pwr.AggregateWounds", "pwr.ValidatingPool"}).Draw(rt, "starvewho")
+		}
 		s := &Sched{Spec: spec, MaxSteps: 600000}
 		s.Setup = func() { ctx, cancel = context.WithCancel(context.Background()) }
 		s.Teardown = func() { cancel() }
